@@ -930,6 +930,16 @@ def handler_run(pid, extra=None):
         info = None
         if extra:
             info = extra(ctx)
+        if pid == "C14":
+            lp = robust(lambda _sd: V.handler_lag_probe(), "handler lag probe")(0)
+            ctx.coverage["lag_probe"] = lp
+            if lp.get("error"):
+                ctx.violation("handler lag probe: " + lp["error"], dict(engine="V", probe="handler_lag_probe", theorem_or_correspondence="engine V lag probe"), no_input=True)
+            elif lp["unregistered"] == 0 and (lp["missing"] or lp["dups"] or not lp["in_order"]):
+                ctx.violation(f"a handler that was busy for 3 s while {lp['appended']} frames were appended to its context was afterwards invoked for "
+                              f"{lp['outs']} of the {lp['triggers']} trigger frames ({lp['missing']} never, {lp['dups']} twice, in order: {lp['in_order']}; the "
+                              f"trigger appended after the burst was {'served' if lp['last_served'] else 'NOT served'}) and never announced that it stopped",
+                              dict(engine="V", probe="handler_lag_probe", result=lp))
         ctx.coverage.update(dict(
             evaluations=len(seeds), distinct_nontrivial=sum(1 for r in reps if r["invocations"] >= 3),
             rule="one evaluation = one scenario on the real server (api + handler dispatcher, in-process, driven over HTTP): "
